@@ -9,10 +9,10 @@
    pam:    ParsePeerAddressMap over lists (0..3) of entries: the result maps each peer to the
            sorted duplicate-free set of exactly the addresses given for it; one error per bad entry. *)
 EXTENDS Naturals, Sequences, FiniteSets, TLC, Json, SequencesExt, IOUtils
-Grp == {"ascii", "two", "three", "trunc", "cont", "overlong", "surrogate", "ff"}
+Grp == {"ascii", "two", "three", "fffd", "trunc", "cont", "overlong", "surrogate", "ff"}   \* fffd: the correctly encoded replacement character U+FFFD (valid)
 RECURSIVE Utf8(_)
 Utf8(s) == IF s = <<>> THEN TRUE
-           ELSE IF s[1] \in {"ascii", "two", "three"} THEN Utf8(Tail(s))
+           ELSE IF s[1] \in {"ascii", "two", "three", "fffd"} THEN Utf8(Tail(s))
            ELSE IF s[1] = "trunc" /\ Len(s) >= 2 /\ s[2] = "cont" THEN Utf8(Tail(Tail(s)))
            ELSE FALSE
 ProtoCases == [kind : {"proto"}, g : UNION {[1..n -> Grp] : n \in 0..3}]
